@@ -143,7 +143,9 @@ class _STIXBase(collections.abc.Mapping):
         extensions = kwargs.get("extensions")
         registered_toplevel_extension_props = {}
         has_unregistered_toplevel_extension = False
-        if isinstance(extensions, collections.abc.Mapping):
+        if isinstance(extensions, collections.abc.Mapping) and \
+                not isinstance(self, stix2.v20._STIXBase20):
+            # (STIX 2.0 has no extension definitions.)
             for ext_id, ext in extensions.items():
                 if isinstance(ext, collections.abc.Mapping) and \
                         ext.get("extension_type") == "toplevel-property-extension":
